@@ -502,3 +502,33 @@ pub enum SortedCaseSensitive {
     IO { x: u8 },
     ABc,
 }
+
+// ------------------------------------------------------------------------------------------------ spellings of Option
+// `Option` is recognised through parentheses and through the invisible groups a macro_rules `$t:ty` fragment puts around it
+#[derive(BinaryCodec)]
+#[evolution(FieldMadeOptional("b"), FieldAdded("c", None))]
+pub struct OptionInParens {
+    pub a: u8,
+    pub b: (Option<u16>),
+    pub c: (std::option::Option<String>),
+}
+
+macro_rules! via_ty {
+    ($(#[$m:meta])* pub struct $name:ident { $(pub $f:ident : $t:ty),* $(,)? }) => {
+        $(#[$m])* pub struct $name { $(pub $f: $t),* }
+    };
+    ($(#[$m:meta])* pub enum $name:ident { $($v:ident ( $($t:ty),* )),* $(,)? }) => {
+        $(#[$m])* pub enum $name { $($v($($t),*)),* }
+    };
+}
+
+via_ty! {
+    #[derive(BinaryCodec)]
+    #[evolution(FieldMadeOptional("b"), FieldAdded("c", None))]
+    pub struct OptionViaMacro { pub a: u8, pub b: Option<u16>, pub c: core::option::Option<u8>, pub d: Vec<Option<u8>> }
+}
+
+via_ty! {
+    #[derive(BinaryCodec)]
+    pub enum OptionViaMacroEnum { A(Option<u8>, u16), B(String) }
+}
